@@ -118,7 +118,7 @@ def run(ctx):
     fsk = F.inherent_method("reader::ShapeReader", "seek")
     if fsk:
         ps2, _ = util.run_fn(F, fsk[0])
-        posts['seek(k)'] = set(last_position(p, RECV) for p in ps2 if is_agg(p.ret, None, 'Ok'))
+        posts['seek(k)'] = set(last_position(p, RECV) or 'unchanged' for p in ps2 if is_agg(p.ret, None, 'Ok'))
     else:
         ctx.missing("C15.R1", "ShapeReader::seek")
     frn = F.inherent_method("reader::ShapeReader", "read_nth_shape_as")
@@ -126,14 +126,22 @@ def run(ctx):
         ps3, _ = util.run_fn(F, frn[0], inline=lambda g, t: 'ShapeReader' in g["def"] or g["kind"] == "Closure")
         okp = [p for p in ps3 if is_agg(p.ret, None, 'Some') and is_agg(agg_field(p.ret, '0'), None, 'Ok')
                and not util.infeasible_get_none(p)]
-        posts['read_nth_shape_as(i) ok'] = set(last_position(p, RECV) for p in okp)
+        posts['read_nth_shape_as(i) ok'] = set(last_position(p, RECV) or 'unchanged' for p in okp)
         nonep = [p for p in ps3 if is_agg(p.ret, None, 'None')]
         posts['read_nth_shape_as(i) out of range'] = set(last_position(p, RECV) or 'unchanged' for p in nonep)
         # R0
         good = bool(okp)
         for p in okp:
-            ios = [e for e in p.io() if e[2] == RECV or e[2][0] == 'ref']
-            if not ios or ios[0][1] != 'seek' or not is_agg(ios[0][4], 'std::io::SeekFrom', 'Start'):
+            first = None
+            for e in p.eff:
+                if e[0] == 'io' and e[2] == RECV:
+                    first = e
+                    break
+                if e[0] == 'call' and any(absint.contains(a, RECV) or a == RECV for a in e[3]):
+                    first = e
+                    break
+            if first is None or first[0] != 'io' or first[1] != 'seek' or not is_agg(first[4], 'std::io::SeekFrom', 'Start') \
+                    or 'offset' not in absint.term_str(first[4]):
                 good = False
         ctx.ob("C15.R0", "read_nth_shape_as", good, "first source operation is seek(Start(2*offset[i])) on every successful path",
                site=ctx.site_of(F, frn[0]["def"]), key="C15.R0|read_nth_shape_as")
